@@ -3,6 +3,10 @@ from common import *
 
 PID = "C18"
 PROPS = "props/C18.v"
+GOTAB = []            # no tables
+GOFILES = ["bitlist.go"]
+EXTRACT = ["base"]
+HANDLERS = ["h_c18.ml"]
 
 
 def gen_history(rng, big=False):
